@@ -33,7 +33,8 @@ def gen_workspace(r, widx):
         for _ in range(r.choice([0, 1, 2])):
             deps.append(r.choice(["docker://docker.io/heroku/procfile-cnb:2.0.1", "../../vendor/other-bp", "./sub/../local-bp", "urn:cnb:registry:heroku/nodejs@1.2.3", "/abs/elsewhere"]))
         r.shuffle(deps)
-        comps.append({"kind": "composite", "id": "meta/comp%d" % j, "dir": "meta/comp%d" % j, "deps": deps})
+        comps.append({"kind": "composite", "id": "meta/comp%d" % j, "dir": "meta/comp%d" % j, "deps": deps, "os": r.choice([None, "linux", "windows", "windows"]),
+                      "bp_uri": r.choice([".", ".", "./"])})
     # nested layout: move some libcnb buildpacks beneath a composite's directory (dependencies of it or not)
     for b in bps:
         if comps and r.random() < 0.35:
@@ -66,7 +67,10 @@ def write_workspace(root, ws):
         with open(os.path.join(d, "buildpack.toml"), "w") as f:
             f.write('api = "0.10"\n\n[buildpack]\nid = "%s"\nversion = "0.1.0"\n\n[[order]]\n%s' % (c["id"], groups))
         with open(os.path.join(d, "package.toml"), "w") as f:
-            f.write(tomlw.selfcheck({"buildpack": {"uri": "."}, "dependencies": [{"uri": u} for u in c["deps"]]}))
+            d = {"buildpack": {"uri": c["bp_uri"]}, "dependencies": [{"uri": u} for u in c["deps"]]}
+            if c["os"]:
+                d["platform"] = {"os": c["os"]}
+            f.write(tomlw.selfcheck(d))
     if ws["foreign"]:
         d = os.path.join(root, "other", "shell-bp")
         os.makedirs(d)
@@ -145,7 +149,7 @@ def expected_tree(ws, root, selected_ids, profile, pdir):
                     deps.append(u)
                 else:
                     deps.append(posixpath.normpath(posixpath.join(root, x["dir"], u)))
-            out[(d + "/package.toml").encode()] = ("toml", {"buildpack": {"uri": "."}, "dependencies": [{"uri": u} for u in deps], "platform": {"os": "linux"}})
+            out[(d + "/package.toml").encode()] = ("toml", {"buildpack": {"uri": x["bp_uri"]}, "dependencies": [{"uri": u} for u in deps], "platform": {"os": x["os"] or "linux"}})
     return out
 
 
@@ -286,6 +290,7 @@ def scenario(arg):
         invocations.append((pick["dir"], "dev", None))
         invocations.append((".", "release", "out-custom"))
         invocations.append(("docs", "dev", None))
+        invocations.append((pick["dir"], "dev", "out-custom"))      # a relative --package-dir is relative to the invocation directory
         invocations.append(("buildpacks", "dev", None))      # contains buildpack dirs but is none itself: nothing is selected
         for c in ws["comps"]:
             if any(b["dir"].startswith(c["dir"] + "/") for b in ws["bps"]):
